@@ -59,7 +59,14 @@ class PoolAdapter(Adapter):
     name = "HistPool"
     STATS_EXACT = {"dyadic", "int", "neg"}
 
-    def __init__(self, pe: PosEmb, spelling: int = 0):
+    # refusals that exist only while free arithmetics is off (with it on the same calls are accepted)
+    MODE_DEPENDENT = {"NegRefused", "ISubRefused"}
+    MODE_DEPENDENT_FOREIGN = {"add_array", "add_scalar", "iadd_array", "mul_array", "imul_array", "div_array", "sub_array"}
+
+    def __init__(self, pe: PosEmb, spelling: int = 0, free_all: bool = False):
+        # free_all: every call runs with free arithmetics enabled.  Whatever does not involve an array operand or a negative
+        # content must behave exactly as with the switch off; the refusals that depend on the switch are left out of this run
+        self.free_all = free_all
         self.pe, self.spelling = pe, spelling
         import physt
         from physt.types import Histogram1D
@@ -98,11 +105,21 @@ class PoolAdapter(Adapter):
         return self.physt.h1(vals, bins, keep_missed=s["keep"], name=f"n{s['name']}" if s["name"] else None, **kw)
 
     def _free(self, on):
-        import contextlib
         from physt.config import config
-        return config.enable_free_arithmetics() if on else contextlib.nullcontext()
+        return config.enable_free_arithmetics(bool(on))       # explicit in both directions (the run may have it on around every call)
+
+    def _mode_dependent(self, action, args):
+        return action in self.MODE_DEPENDENT or (action == "ForeignRefused" and args[1] in self.MODE_DEPENDENT_FOREIGN)
 
     def apply(self, real, action, args, pre):
+        if self.free_all:
+            if self._mode_dependent(action, args):
+                return real, {"exc": None, "ret": None, "skipped": True}
+            with self._free(True):
+                return self._apply(real, action, args, pre)
+        return self._apply(real, action, args, pre)
+
+    def _apply(self, real, action, args, pre):
         obs = {"exc": None, "ret": None}
         o = real
         try:
@@ -436,6 +453,8 @@ class PoolAdapter(Adapter):
 
     def compare(self, real, obs, post, action, args, pre, view) -> Optional[Mismatch]:
         bad, det = [], {}
+        if obs.get("skipped"):
+            return None
         refusal = action in REFUSALS
         if refusal:
             if obs["exc"] is None and "refused" in view:
